@@ -71,7 +71,7 @@ def rect_ring(x0, y0, x1, y1):
     return [(x0, y0), (x1, y0), (x1, y1), (x0, y1)]
 
 
-def gen_shape(rng, kind=None, rectilinear=False):
+def gen_shape(rng, kind=None, rectilinear=False, huge_T=None):
     """returns {'kind':..., 'polys': [[ext, [holes]]...]} with dyadic relative coordinates"""
     q = lambda lo, hi: rng.randrange(int(lo * 16), int(hi * 16) + 1) / 16.0  # noqa
     kinds = ['rect', 'rect', 'lshape', 'hole', 'multi', 'all', 'far', 'bigl', 'bighole', 'frame'] + \
@@ -134,6 +134,14 @@ def gen_shape(rng, kind=None, rectilinear=False):
             polys = [[[(-0.5 - j, -0.5), (c + 0.5 + j + 0.5, -0.5), (-0.5 - j, c + 0.5 + j + 0.5)], []]]
         else:
             polys = [[[(1.5 + j, 1.5), (1.5 + j - 2.0 - c, 1.5), (1.5 + j, 1.5 - 2.0 - c)], []]]
+    elif kind == 'huge':
+        # a big triangle (vertices 2^18 query widths away) whose slanted border passes through the query bbox:
+        # for deep zoom requests, where the far vertices have pixel coordinates beyond 2^24
+        cx, cy = q(0.2, 0.8), q(0.2, 0.8)
+        dx, dy = rng.choice([(3, 1), (1, 1), (2, -1), (1, 3), (5, -2), (-1, 2), (4, 3)])
+        T = float(huge_T or 2 ** 18)
+        sgn = rng.choice([1, -1])
+        polys = [[[(cx - dx * T, cy - dy * T), (cx + dx * T, cy + dy * T), (cx - sgn * dy * T, cy + sgn * dx * T)], []]]
     elif kind in ('fanA', 'fanB'):
         # two different polygons with the same four leading vertices (two users, one view)
         pre = [(-0.5, -0.5), (-0.5, 1.5), (-0.4375, 1.5), (-0.4375, 1.4375)]
@@ -252,10 +260,10 @@ def is_rectilinear(shape):
     return shape['kind'] in ('rect', 'lshape', 'hole', 'multi', 'all', 'far', 'bigl', 'bighole', 'frame', 'fanA', 'fanB')
 
 
-def gen_geom(rng, q_srs_choices=('EPSG:4326', 'EPSG:3857'), kind=None):
+def gen_geom(rng, q_srs_choices=('EPSG:4326', 'EPSG:3857'), kind=None, huge_T=None):
     """a geometry spec: shape + form + srs (srs None = the srs of the query)"""
-    cross = rng.random() < 0.35
-    shape = gen_shape(rng, kind=kind, rectilinear=cross)
+    cross = rng.random() < 0.35 and kind != 'huge'
+    shape = gen_shape(rng, kind=kind, rectilinear=cross, huge_T=huge_T)
     forms = ['wkt', 'shapely', 'wkt_multi']
     if shape['kind'] in ('rect', 'all', 'far'):
         forms += ['bbox', 'bbox']
@@ -413,7 +421,7 @@ def rgba_of(img):
     return list(im.getdata())
 
 
-def gen_merge_case(rng, quick):
+def gen_merge_case(rng, quick, deep=False):
     w, h = rng.choice([(6, 5), (8, 6), (7, 7), (10, 4)])
     nl = rng.choice([0, 1, 1, 1, 2, 2, 3])
     layers = []
@@ -440,6 +448,17 @@ def gen_merge_case(rng, quick):
                            'opacity': rng.choice([None, None, None, [1, 2], [1, 4], [3, 4], [1, 1], [2, 1]])},
                        'cov': rng.choice([None, None, 'clip', 'clip', 'clip', 'noclip']),
                        'geom': gen_geom(rng)})
+    if deep:
+        # deep zoom in EPSG:3857, geometries with vertices about 10000 km away (pixel coordinates far beyond 2^24)
+        res = rng.choice([0.25, 0.05, 0.01])
+        T = 2 ** int(math.log(1.2e7 / (5 * w * res), 2))
+        for ly in layers:
+            ly['geom'] = gen_geom(rng, kind='huge', huge_T=T)
+        x0, y0 = rng.randrange(-2000, 2000), rng.randrange(-2000, 2000)
+        return {'size': [w, h], 'srs': 'EPSG:3857', 'bbox': [x0, y0, x0 + w * res / 1000.0, y0 + h * res / 1000.0],
+                'ropts': {'mode': None, 'transparent': rng.choice([False, True, True]),
+                          'bgcolor': rng.choice([None, '#000000', '#102030'])},
+                'layers': layers, 'gcov': gen_geom(rng, kind='huge', huge_T=T) if rng.random() < 0.6 else None}
     return {'size': [w, h], 'srs': rng.choice(['EPSG:4326', 'EPSG:3857']),
             'bbox': rng.choice([[0, 0, 10 * w, 10 * h], [-80, -40, 0, 0], [5, 40, 5 + w, 40 + h], [-10, -5, 10, 5]]),
             'ropts': {'mode': rng.choice([None, None, None, 'RGB', 'RGBA']),
@@ -606,6 +625,8 @@ def stream_merge(ctx, corpus):
     cases = [c['case'] for c in corpus if c.get('stream') == 'merge']
     for _ in range(ctx.n(220, 2500)):
         cases.append(gen_merge_case(rng, ctx.quick))
+    for _ in range(ctx.n(30, 300)):
+        cases.append(gen_merge_case(rng, ctx.quick, deep=True))
     for case in cases:
         try:
             run_merge_case(ctx, case, terms, descr)
@@ -883,6 +904,25 @@ def gen_requests(rng, cfg, nreq):
                     g['shape'] = sh
                     if g['form'] == 'bbox' and g['shape']['kind'] not in ('rect', 'all', 'far'):
                         g['form'] = 'wkt'
+        direct = sorted(n for n, ss in srcs.items() if all(x.startswith('s') for x in ss))
+        if req['type'] == 'map' and direct and rng.random() < 0.07:
+            # deep zoom (layers on direct sources: the small tile grids of the caches end far above this scale):
+            # 0.2 m per pixel, limited to big triangles whose far vertices lie 10000 km away
+            x0, y0 = rng.randrange(-3000000, 3000000), rng.randrange(-3000000, 3000000)
+            req.update({'srs': 'EPSG:3857', 'bbox': [x0, y0, x0 + 8, y0 + 6], 'size': [40, 30], 'format': 'image/png',
+                        'layers': [rng.choice(direct) for _ in range(rng.choice([1, 1, 2]))]})
+            geoms, lays = {}, {}
+            for n in names:
+                if rng.random() < 0.85:
+                    lays[n] = {'map': 'true'}
+                    if rng.random() < 0.6:
+                        lays[n]['limited_to'] = len(geoms) + 1
+                        geoms[str(len(geoms) + 1)] = gen_geom(rng, kind='huge', huge_T=2 ** 18)
+            glob = None
+            if rng.random() < 0.4:
+                glob = len(geoms) + 1
+                geoms[str(glob)] = gen_geom(rng, kind='huge', huge_T=2 ** 18)
+            req['cb'] = {'kind': 'partial', 'layers': lays, 'limited_to': glob, 'geoms': geoms}
         if req['type'] == 'tile' and req['cb'] is not None:
             # The tile services intersect the layer's and the global geometry in the SRS of the first one, so one of
             # them may be reprojected there and back (vertex by vertex).  That is exact for axis-parallel edges only:
